@@ -23,7 +23,7 @@ class H:
 
     def __init__(self, name, impl, sig, pre, timeout=None, kind='exhaust', parts=None,
                  finding=None, samples=(), need=(), funcs=(), doc='', path_timeout=None,
-                 replay_impl=None):
+                 replay_impl=None, tiers=('quick', 'thorough')):
         self.name = name
         self.impl = impl
         self.sig = sig
@@ -38,6 +38,7 @@ class H:
         self.doc = doc
         self.path_timeout = path_timeout
         self.replay_impl = replay_impl or impl
+        self.tiers = tuple(tiers)
 
     def params(self):
         import ast
